@@ -103,3 +103,11 @@ reg("C04",
     explanation="a 'universal' service (every parameter kind x type class, header and cookie auth, optional/alias/collection/union/any/binary bodies and returns, size-limited body, context) is generated from ir/http.json at build time; every ASCII code point, UTF-8 boundary and reserved-character pair in every string position, pairs of positions, one-hot scalar alphabets, collections of 0..3, under three body chunkings; the router binds raw path segments as the PathParams contract documents",
     level_text="Exhaustive exploration over per-position alphabets with an identity oracle, executed on the generated code of the current tree (regenerated by build.rs) and the runtime crates; both flavours.",
     level_note="Trusted: the loopback router (60 lines; routing is outside the repository); conjure-serde JSON text as the canonical rendering on both sides. Macro-derived clients/endpoints with custom encoders are covered by the macro part of this engine when built; Smile negotiation is exercised by C11 and the Smile replay.")
+
+reg("C19",
+    packages=["httploop"], bin="httploop", level="exploration", engine="E3b httploop",
+    technique="bounded exhaustive enumeration of per-argument corruption states (valid/absent/repeated/unparsable/invalid text/auth faults) over all arguments of generated and macro-derived endpoints, executed on the real endpoints (blocking and async), judged by the error-code / param-name rule",
+    design_ref="DESIGN.md §3 C19",
+    explanation="8 endpoints of the generated universal service (argument names fooBar, type, strSet, xOptInt ... whose Rust spelling differs from the declared name) and a hand-written #[conjure_endpoints] service with and without log_as; every assignment of states with at most k deviating arguments plus every subset of arguments corrupted at once; raw requests go straight to the routed endpoint",
+    level_text="Exhaustive exploration of the corruption-assignment space per endpoint on the real generated/macro code: decoding failures are per-argument and order-dependent, so all subsets plus all fault kinds per argument (pairs/triples) cover the interactions within the bound.",
+    level_note="Trusted: the raw request builder and the loopback router. When several arguments are undecodable any of their declared names is accepted. Lossy decoding of non-UTF-8 escapes in string path parameters is not judged.")
